@@ -50,6 +50,8 @@ def validate_calls(traces, meta, workdir, shape):
             ev = tr["events"][reached - 1] if 1 <= reached <= len(tr["events"]) else {}
             # name the failing clause (diagnosis only)
             lab = "rows"
+            if ev.get("ev") == "Setup":
+                lab = "setup:rhs=%s,jac=%s" % (ev.get("rhs"), ev.get("jac"))
             if ev.get("ev") in ("Append", "Return") and ev.get("rows") is not None:
                 nobs = len(ev["rows"])
                 if ev["ev"] == "Return" and nobs != tr["nt"] + (1 if tr["includeOrigin"] else 0):
@@ -100,8 +102,9 @@ def det_worker(args):
         res["describe"] = defn.describe()
         res["closed"] = closed
         sy = defn.sy
-        out, _ = spec_ode(defn, events, odes, workdir, "det%d" % idx)
+        out, _ = spec_ode(defn, events, odes, workdir, "det%d" % idx, want=["jac"])
         ode_polys = [codec.P(t) for t in out["ode"]]
+        jac_polys = [[codec.P(t) for t in row] for row in out["jac"]]
         if cat is not None:
             # the catalogue object must be the transcribed model
             from harness import oracle_model as om
@@ -113,8 +116,19 @@ def det_worker(args):
         rhs = refnum.rhs_from_spec(sy, ode_polys, theta)
         calls = rd.entry_calls(rng, opts.get("quick", True))
         traces, meta = [], []
+        # what the integrators must be set up with: the specification's f and df/dx at the initial point
+        v0 = [float(v) for v in x0] + [0.0] + [float(v) for v in theta] + [0.0] * sy.nd
+        f_ref = np.array(refnum.compile_polys(sy, ode_polys)(v0), float)
+        J_ref = refnum.mat_from_spec(sy, jac_polys)(v0)
         for (entry_name, method, fo, io) in calls:
-            grid = rd.time_grid(rng, tend)
+            special = None
+            # grids that contain the initial time or a repeated time: only on the routes whose integrator accepts a
+            # zero-length step (scipy's dopri5 / dop853 report failure on it: outside the quantifier, DESIGN section 8)
+            zero_ok = entry_name in ("integrate", "solve_determ") or \
+                (entry_name == "integrate2" and method in ("lsoda", "vode", "ivode") and not fo)
+            if zero_ok and rng.random() < 0.4:
+                special = rng.choice(["origin", "repeat"])
+            grid = rd.time_grid(rng, tend, special=special)
             try:
                 ref = refnum.solve(rhs, [float(v) for v in x0], grid)
             except Exception as ex:
@@ -122,8 +136,9 @@ def det_worker(args):
                 return res
             sol, snaps, err = rd.perform_call(m, entry_name, method, fo, io, x0, grid)
             res["calls"] += 1
-            cfgname = "%s/%s/full=%s/origin=%s" % (entry_name, method, fo, io)
+            cfgname = "%s/%s/full=%s/origin=%s%s" % (entry_name, method, fo, io, "" if not special else "/grid=" + special)
             res["configs"].append(cfgname)
+            setup = rd.judge_setup(rd.perform_call.last_setup, f_ref, J_ref)
             if err:
                 res["findings"].append({"what": "deterministic entry point raised", "detail": err, "config": cfgname,
                                         "shape": "single-state" if sy.ns == 1 else "multi-state"})
@@ -134,7 +149,7 @@ def det_worker(args):
                 continue
             sol = sol.reshape(sol.shape[0], -1)
             rel = 1e-5 if method == "odeint" else 1e-7
-            tr = rd.to_call_trace(entry_name, method, fo, io, ref, sol, snaps, closed, rel)
+            tr = rd.to_call_trace(entry_name, method, fo, io, ref, sol, snaps, closed, rel, setup=setup)
             traces.append(tr)
             meta.append({"config": cfgname, "grid": [float(g) for g in grid]})
             if sol.shape[0] == ref.shape[0] - (0 if io else 1):
